@@ -12,7 +12,7 @@ for f in sorted(glob.glob(os.path.join(V, "tools", "claims.d", "*.json"))):
 hooks_commits = []
 try:
     out = subprocess.run(["git", "-C", "/repo", "log", "--format=%H %s"], capture_output=True, text=True).stdout
-    hooks_commits = [l.split()[0] for l in out.splitlines() if " verif hook:" in l or l.split(" ", 1)[1].startswith("verif:")]
+    hooks_commits = [l.split()[0] for l in out.splitlines() if l.split(" ", 1)[1].startswith("verif hook:")]
 except Exception:
     pass
 checks, na = [], []
